@@ -106,6 +106,12 @@ func (i MessageIntegrity) Check(msg *Message) error {
 	if err != nil {
 		return err
 	}
+	// The computed HMAC is written behind msg.Raw: reserving the room once, so that
+	// a buffer without spare capacity does not cause an allocation on every call.
+	if n := len(msg.Raw); cap(msg.Raw)-n < messageIntegritySize {
+		msg.grow(n + messageIntegritySize)
+		msg.Raw = msg.Raw[:n]
+	}
 
 	// Adjusting length in header to match m.Raw that was
 	// used when computing HMAC.
